@@ -162,6 +162,8 @@ class Model(object):
         self.fault_dates = set()
         self.started = set()                 # actors whose body began (on_exit callback registered)
         self.trace = []                      # (what, line number): where demands were satisfied (used by the oracle self-test)
+        self.end_clk = None
+        self.changes_seen = 0
 
     # -- helpers ---------------------------------------------------------------------------------------------------------
     def report(self, key, what):
@@ -335,6 +337,7 @@ class Model(object):
         pass
 
     def ev_S(self, ev):
+        self.changes_seen += 1
         self.change((ev.f[0], int(ev.f[1])), ev.f[2] == "1", ev.clk)
 
     def ev_IR(self, ev):
@@ -353,6 +356,9 @@ class Model(object):
 
     def ev_DL(self, ev):
         self.deadlock = True
+
+    def ev_END(self, ev):
+        self.end_clk = ev.clk
 
     def ev_F(self, ev):
         a, k = int(ev.f[0]), int(ev.f[1])
@@ -651,6 +657,12 @@ class Model(object):
     # -- end of run -------------------------------------------------------------------------------------------------------
     def finish(self):
         self.cur = None
+        fs = self.run["faults"]
+        if self.run["path"] in "PT" and len(fs) == 1 and self.end_clk is not None and self.changes_seen == 0 and fs[0]["t_off"] < self.end_clk - 1e-6:
+            # the simulation went past the date of the state profile event / timer and the resource never changed state
+            self.report("C10:state-change-not-applied:%s" % ("host" if fs[0]["kind"] == "H" else "link"), "%s%d was to be turned off at %.17g by %s; the simulation "
+                        "ran until %.17g and no on_onoff signal was ever observed" % (fs[0]["kind"], fs[0]["idx"], fs[0]["t_off"],
+                                                                                  "its state profile" if self.run["path"] == "P" else "a kernel timer", self.end_clk))
         for a, kd in sorted(self.killed.items()):
             if kd["x"] == 0 and a in self.started:
                 self.report("C10:on-exit-missing:%s" % kd["tag"], "actor %d was on H%d which went off at %.17g (it was %s); its on_exit callback never ran: "
